@@ -216,36 +216,55 @@ def r_branch_canon(ctx: Ctx, rt: RT, prop):
     """The stored branch column is canonical.  The writers translate marks with value tables (Series.replace(0, 'ads') /
     == 0 tests) and the identifier hashes the column: both are only total / spelling independent if the constructor - the
     single place where data_raw is created - normalises whatever the caller gave (list of booleans, boolean or object column)."""
-    ctx.rule("B-canon: PointIsotherm.__init__ ends every way of assigning data_raw['branch'] with one unconditional "
-             "`self.data_raw['branch'] = self.data_raw['branch'].astype(<integer type>)`; no other method stores into that column")
+    ctx.rule("B-canon: PointIsotherm.__init__ stores the branch marks as integers 0 / 1 whatever spelling the caller used (a list of "
+             "booleans, a boolean column of the table, 'ads' / 'des') - interpreted on the constructor; no other method stores into that column")
     ci = rt.model.cls("pygaps.core.pointisotherm.PointIsotherm")
     init = ci.find_method("__init__")
-
-    def is_store(st):
-        return isinstance(st, ast.Assign) and any(ast.unparse(t) == "self.data_raw['branch']" for t in st.targets)
-    top = []
-    for i, st in enumerate(init.node.body):
-        stores = [x for x in ast.walk(st) if is_store(x)]
-        if stores:
-            top.append((i, st, stores))
-    ctx.floor("stores into data_raw['branch'] in PointIsotherm.__init__", sum(len(x[2]) for x in top), 3)
-    ok, why = False, "no store into data_raw['branch'] at the top level of __init__"
-    if top:
-        i, st, stores = top[-1]
-        inner = st.body[0] if isinstance(st, ast.Try) and len(st.body) == 1 else st
-        why = f"the last store (line {st.lineno}) is `{ast.unparse(inner)[:90]}`"
-        if is_store(inner) and isinstance(inner.value, ast.Call) and isinstance(inner.value.func, ast.Attribute) \
-                and inner.value.func.attr == "astype" and ast.unparse(inner.value.func.value) == "self.data_raw['branch']" \
-                and inner.value.args and ast.unparse(inner.value.args[0]).strip("'\"") in ("int8", "int16", "int32", "int64", "int", "uint8"):
-            ok = True
-    ctx.ob(ok, Finding(f"{prop}.B-canon", init.where, "PointIsotherm.__init__|branch-column-not-normalised",
-                       f"{why}: branch marks are stored as given (booleans from a user list, objects from an importer). "
-                       "Series.replace(0, 'ads') in the CSV/Excel writers does not match booleans (every point is then exported as "
-                       "'False'/'True' and re-imported as desorption) and the identifier depends on the spelling of the same marks"),
-           nontrivial_key=("b-canon",))
+    I = rt.I
+    saved = dict(I.overrides)
+    I.overrides.pop("pygaps.core.pointisotherm.PointIsotherm", None)
+    I.overrides["pygaps.core.baseisotherm.BaseIsotherm.__init__"] = lambda I, fi, env, n: None
+    marks = [False, True, True]
+    cases = {"list-of-booleans": (False, list(marks)), "boolean-column": (True, "guess"), "ads": (False, "ads"), "des": (False, "des")}
+    want = {"list-of-booleans": [0, 1, 1], "boolean-column": [0, 1, 1], "ads": [0, 0, 0], "des": [1, 1, 1]}
+    n = 0
+    try:
+        for cname, (incol, branch) in cases.items():
+            def thunk(I, incol=incol, branch=branch):
+                cols = {c: [Num.atom(f"{c}{i}") for i in range(3)] for c in ("pressure", "loading")}
+                if incol:
+                    cols["branch"] = list(marks)
+                new = Obj(cls=ci, label="new", attrs={})
+                I.call_func(init, [], {"isotherm_data": MiniFrame(cols), "pressure_key": "pressure", "loading_key": "loading", "branch": branch}, None, self_obj=new)
+                return new
+            for oc, _ in rt.explore(thunk):
+                n += 1
+                col = oc.value.attrs["data_raw"].cols.get("branch") if oc.kind == "ok" and isinstance(oc.value.attrs.get("data_raw"), MiniFrame) else None
+                got = [("bool:" + str(v)) if isinstance(v, bool) else int(v.value()) if isinstance(v, Num) and v.is_const() else I.describe(v) for v in col] if col is not None else \
+                    (f"raises {oc.exc.name}" if oc.kind != "ok" else "no branch column")
+                ctx.ob(got == want[cname], Finding(f"{prop}.B-canon", init.where, f"PointIsotherm.__init__|branch-column-not-normalised|{cname}",
+                                                   f"branch marks given as {cname} are stored as {got}; required the integers {want[cname]}: "
+                                                   "Series.replace(0, 'ads') in the CSV/Excel writers does not match booleans (every point is then exported as "
+                                                   "'False'/'True' and re-imported as desorption) and the identifier depends on the spelling of the same marks"),
+                       nontrivial_key=("b-canon", cname))
+    finally:
+        I.overrides.clear()
+        I.overrides.update(saved)
+    ctx.floor("constructor runs for branch canonicalisation", n, 4)
+    # private helpers the constructor calls are part of the constructor (their stores were interpreted above)
+    ctor_part, todo = set(), [init]
+    while todo:
+        f_ = todo.pop()
+        if f_.name in ctor_part:
+            continue
+        ctor_part.add(f_.name)
+        for c in ast.walk(f_.node):
+            if isinstance(c, ast.Call) and isinstance(c.func, ast.Attribute) and isinstance(c.func.value, ast.Name) and c.func.value.id == "self" \
+                    and c.func.attr.startswith("_") and ci.find_method(c.func.attr) is not None:
+                todo.append(ci.find_method(c.func.attr))
     others = []
     for m in ci.methods.values():
-        if m.name == "__init__":
+        if m.name in ctor_part:
             continue
         for x in ast.walk(m.node):
             if isinstance(x, (ast.Assign, ast.AugAssign)) and any("data_raw['branch']" in ast.unparse(t) or 'data_raw["branch"]' in ast.unparse(t)
